@@ -63,6 +63,70 @@ def libnames_schema():
     return S.Schema("libnames", types=types, messages=[S.Message("M", 1, fields=fields, groups=[grp])], name="libnames")
 
 
+def sole_dependency_schema():
+    """Every type is used from exactly one place, one schema construct per dependency direction, so that each
+    `#include` of a generated header must come from that construct alone: field types at message level and in groups
+    at depth 1 and 2, <data> types, dimension types used only by a nested group, enums reached only through a constant
+    `valueRef` (field level, through a constant type, inside a composite), refs inside composites to every kind,
+    inline composites holding refs."""
+    from .. import refmodel
+    nid = S._ids()
+    types = [S.std_header("hdrX"), S.std_dimension(), S.std_vardata()]
+    n = [0]
+
+    def fresh(kind):
+        n[0] += 1
+        nm = "%s%d" % (kind, n[0])
+        if kind == "T":
+            types.append(S.Type(nm, "uint16"))
+        elif kind == "A":
+            types.append(S.Type(nm, "char", length=4))
+        elif kind == "E":
+            types.append(S.Enum(nm, "uint8", [S.EnumValue("A", "1"), S.EnumValue("B", "2")]))
+        elif kind == "S":
+            types.append(S.SetT(nm, "uint8", [S.Choice("p", 0), S.Choice("q", 3)]))
+        elif kind == "C":
+            types.append(S.Composite(nm, [S.Type("m", "uint8"), S.Type("n", "int32")]))
+        elif kind == "D":
+            types.append(S.Composite(nm, [S.Type("blockLength", "uint16"), S.Type("numInGroup", "uint8")]))
+        elif kind == "V":
+            types.append(S.Composite(nm, [S.Type("length", "uint8"), S.Type("varData", "char", length=0)]))
+        return nm
+
+    msgs = []
+    k = [0]
+
+    def msg(fields=(), groups=(), data=()):
+        k[0] += 1
+        msgs.append(S.Message("M%d" % k[0], k[0], list(fields), list(groups), list(data)))
+
+    for kind in "TAESC":
+        msg(fields=[S.Field("f", nid(), fresh(kind))])
+        msg(groups=[S.Group("g", nid(), [S.Field("f", nid(), fresh(kind))])])
+        msg(groups=[S.Group("g", nid(), [S.Field("x", nid(), "uint8")], [S.Group("h", nid(), [S.Field("f", nid(), fresh(kind))])])])
+    msg(data=[S.Data("d", nid(), fresh("V"))])
+    msg(groups=[S.Group("g", nid(), [S.Field("x", nid(), "uint8")], [], [S.Data("d", nid(), fresh("V"))])])
+    msg(groups=[S.Group("g", nid(), [S.Field("x", nid(), "uint8")], dimension_type=fresh("D"))])
+    msg(groups=[S.Group("g", nid(), [S.Field("x", nid(), "uint8")], [S.Group("h", nid(), [S.Field("y", nid(), "uint8")], dimension_type=fresh("D"))])])
+    # enums reached only through valueRef
+    e1, e2, e3, e4, e5 = [fresh("E") for _ in range(5)]
+    msg(fields=[S.Field("k", nid(), "uint8", presence="constant", value_ref=e1 + ".A"), S.Field("x", nid(), "uint16")])
+    types.append(S.Type("KC", "uint8", presence="constant", value_ref=e2 + ".B"))
+    msg(fields=[S.Field("k", nid(), "KC"), S.Field("x", nid(), "uint16")])
+    msg(groups=[S.Group("g", nid(), [S.Field("k", nid(), "uint8", presence="constant", value_ref=e3 + ".A"), S.Field("x", nid(), "uint8")])])
+    types.append(S.Composite("CK", [S.Type("a", "uint16"), S.Type("kf", "uint8", presence="constant", value_ref=e4 + ".B")]))
+    msg(fields=[S.Field("c", nid(), "CK")])
+    msg(fields=[S.Field("ke", nid(), e5, presence="constant", value_ref=e5 + ".A"), S.Field("x", nid(), "uint16")])
+    # refs inside composites (and inside inline composites) as the only users
+    types.append(S.Composite("CR", [S.Ref("rt", fresh("T")), S.Ref("ra", fresh("A")), S.Ref("re", fresh("E")), S.Ref("rs", fresh("S")),
+                                    S.Ref("rc", fresh("C")), S.Composite("inl", [S.Ref("it", fresh("T")), S.Ref("ie", fresh("E"))])]))
+    msg(fields=[S.Field("c", nid(), "CR")])
+    s = S.Schema("soledep", id=3, version=1, types=types, messages=msgs, header_type="hdrX", description="sole dependencies", name="soledep")
+    refmodel.fix_offsets(s)
+    refmodel.fit_ids_to_header(s)
+    return s
+
+
 def special_raw():
     from . import c12, c15, c16
     rng = C.rng_for(1, "c07-special")
@@ -86,7 +150,7 @@ def main():
     quick = rep.tier == "quick"
     schemas = S.corpus() + S.random_schemas(rep.seed, 3 if quick else 60) + S.clash_schemas(rep.seed, 6 if quick else 60)
     schemas += [hostile_text_schema(), float_literal_schema(),
-                libnames_schema()] + S.pair_clash_schemas()
+                libnames_schema(), sole_dependency_schema()] + S.pair_clash_schemas()
     sparse = S.pair_clash_schemas(sparse=True)
     if quick:
         # sibling and nested group pairs always; a seeded sample of the other positions
@@ -103,7 +167,9 @@ def main():
         hdr_cfgs_sampled = []
         tu_cfgs = [build.Cfg(c, s, "O0") for c, s in build.all_compiler_std()]
     rep.rule("schemas: covering corpus (6), seeded random (%d), clash-pool names (%d), hostile text, float literal forms, "
-             "library-member names, 7 systematic pair-clash schemas (every ordered pair of {X, X_entry, X_0, X_0_entry, X_1, entry, "
+             "library-member names, a sole-dependency schema (every type used from exactly one construct, so every #include "
+             "must come from it: field types at depth 0-2, data and dimension types, enums reached only through valueRef, refs in "
+             "composites), 7 systematic pair-clash schemas (every ordered pair of {X, X_entry, X_0, X_0_entry, X_1, entry, "
              "X_entry_0} as sibling groups, nested groups, group + entry member, field + group, group + data, message + "
              "group), the same pairs as single-message schemas (all 91 sibling/nested pairs + 30 sampled others in quick, "
              "all 273 in thorough; message header, top-level header and touch TU compiled), and three special-purpose raw "
